@@ -1194,9 +1194,12 @@ func main() {
 			Underscore bool
 			Packing    *packing
 			Event      *gostatsd.Event
+			Slow       *slowCase
 		}
 		vrt.LoadReplay(&rp)
-		if rp.Event != nil {
+		if rp.Slow != nil {
+			checkSlowRelay(*rp.Slow)
+		} else if rp.Event != nil {
 			b, err := bk.New(rp.Kind, bk.Opts{})
 			if err != nil {
 				panic(err)
@@ -1285,6 +1288,12 @@ func main() {
 		menu = menu[:len(menu)-1]
 	}
 	checkRelayEvents()
+	for _, sc := range slowCases() {
+		i++
+		if vrt.Mine(i) {
+			checkSlowRelay(sc)
+		}
+	}
 	// datagram packing of the relay at every fill level around the limit
 	for _, tagged := range []bool{false, true} {
 		for k := 1; k <= 24; k++ {
